@@ -10,7 +10,7 @@
    rounded once and truncated: never below base, never above 1.1*base by more than one nanosecond). *)
 From Coq Require Import List ZArith Bool.
 Import ListNotations.
-Open Scope Z_scope.
+Local Open Scope Z_scope.
 
 Record bo := mkBo {
   bo_retries : Z;      (* 0 = retry forever *)
